@@ -277,7 +277,7 @@ pub fn run(tier: &str, seed: u64, out: &str) {
     let (tables, names) = make_tables(seed, if thorough { 8 } else { 3 });
     let mg = MoveGenerator::new();
     let hc = HashCheck {
-        nav: PosCheck::new(&mg, &rep, Which::Nav),
+        nav: PosCheck::new(crate::eng::tl_mg(), &rep, Which::Nav),
         rep: &rep,
         key_seeds: &tables,
         seeds: &names,
@@ -387,7 +387,7 @@ pub fn replay_one(fen: &str, seed: u64) -> i32 {
     let (tables, names) = make_tables(seed, 3);
     let mg = MoveGenerator::new();
     let hc = HashCheck {
-        nav: PosCheck::new(&mg, &rep, Which::Nav),
+        nav: PosCheck::new(crate::eng::tl_mg(), &rep, Which::Nav),
         rep: &rep,
         key_seeds: &tables,
         seeds: &names,
